@@ -103,3 +103,47 @@ PLACEMENT_NAMES = {
     "default_mutable_once": (["x", "acc"], 2),
     "recursive": (["n", "acc"], 2),
 }
+
+
+# ------------------------------------------------------------------------------------------------
+# defaults that read a variable with the SAME spelling as a parameter (`lambda *, z=z: ...`): the
+# default belongs to the DEFINING scope, the parameter to the function.  Function kind x which
+# defaults x how the defining scope stores the variable (seeded change c11f: keyword-only defaults
+# of a lambda were resolved after the lambda's parameters had been pushed).
+# ------------------------------------------------------------------------------------------------
+def _same_default_templates():
+    sigs = {
+        "both": ("x, y=y, *a, z=z, **k", "(x, y, a, z, sorted(k.items()))"),
+        "kwonly": ("x, *a, z=z, **k", "(x, a, z, sorted(k.items()))"),
+        "pos": ("x, y=y, *a, **k", "(x, y, a, sorted(k.items()))"),
+        "kwonly_expr": ("x, *, z=z + y, y=y * 2", "(x, y, z)"),
+    }
+    for sk, (sig, ret) in sigs.items():
+        for kind in ("lambda", "def"):
+            for scope in ("module", "local", "captured", "param_captured", "class", "class_in_function"):
+                static = scope.startswith("class")
+                if kind == "lambda":
+                    d = ["f = %s(lambda %s: %s)" % ("staticmethod" if static else "", sig, ret)]
+                else:
+                    d = (["@staticmethod"] if static else []) + ["def f(%s):" % sig, "    return %s" % ret]
+                ind = lambda ls: ["    " + l for l in ls]
+                bump = ["def bump():", "    nonlocal y, z", "    y += 10", "    z += 20", "bump()"]
+                if scope == "module":
+                    ls = ["y = V[0]", "z = V[1]"] + d
+                elif scope == "local":
+                    ls = ["def outer():"] + ind(["y = V[0]", "z = V[1]"] + d + ["return f"]) + ["f = outer()"]
+                elif scope == "captured":
+                    ls = ["def outer():"] + ind(["y = V[0]", "z = V[1]"] + bump + d + ["bump()", "return f"]) + ["f = outer()"]
+                elif scope == "param_captured":
+                    ls = ["def outer(y, z):"] + ind(bump + d + ["bump()", "return f"]) + ["f = outer(V[0], V[1])"]
+                elif scope == "class":
+                    ls = ["class K:"] + ind(["y = V[0]", "z = V[1]"] + d) + ["f = K.f"]
+                else:
+                    ls = ["def outer(y):"] + ind(["z = V[1]", "def rd():", "    return y + z", "class K:"] + ind(["z = z + 1" if False else "w = rd()"] + d) + ["return K.f"]) + ["f = outer(V[0])"]
+                names = [n for n in ("x", "y", "z") if (n + "=") in sig or n == "x"]
+                yield "samedefault_%s_%s_%s" % (sk, kind, scope), "\n".join(ls) + "\n", (names, 2)
+
+
+for _n, _src, _names in _same_default_templates():
+    PLACEMENT_TEMPLATES[_n] = _src
+    PLACEMENT_NAMES[_n] = _names
